@@ -334,12 +334,19 @@ func (vc *VC) typingFact(tm *Term) string {
 			if vc.absStr {
 				return "(>= " + tm.S + " 0)"
 			}
-			return vc.le(vc.intLit(0, 64), "(str-len "+tm.S+")", true) + ""
+			if vc.mode == "bv" {
+				return vc.le(vc.intLit(0, 64), "(str-len "+tm.S+")", true)
+			}
+			return "(and (<= 0 (str-len " + tm.S + ")) (<= (str-len " + tm.S + ") 9223372036854775807) (<= 0 (str-off " + tm.S + ")))"
 		}
 	case *types.Slice:
 		z := vc.intLit(0, 64)
-		return fmt.Sprintf("(and %s %s %s (>= (rid (s-ref %s)) 0))", vc.le(z, "(s-off "+tm.S+")", true), vc.le(z, "(s-len "+tm.S+")", true),
-			vc.le("(s-len "+tm.S+")", "(s-cap "+tm.S+")", true), tm.S)
+		ub := "true"
+		if vc.mode != "bv" {
+			ub = "(<= (s-cap " + tm.S + ") 9223372036854775807)"
+		}
+		return fmt.Sprintf("(and %s %s %s %s (>= (rid (s-ref %s)) 0))", vc.le(z, "(s-off "+tm.S+")", true), vc.le(z, "(s-len "+tm.S+")", true),
+			vc.le("(s-len "+tm.S+")", "(s-cap "+tm.S+")", true), ub, tm.S)
 	case *types.Pointer, *types.Map, *types.Chan:
 		return "(>= (rid " + tm.S + ") 0)"
 	case *types.Struct:
